@@ -180,8 +180,10 @@ DeliveredOK(got, sel, msgs) ==
 \* discard_by_level(single id | name, level) = disc.  Sound: never discards a level some message of which
 \* would pass the log's filters.  Not useless: a level is only kept if no level filter exists or at least
 \* one of the level filters accepts it; an unknown log has nothing to deliver to: anything goes.
-PreCheckOKE(em, l, disc) == /\ disc => ~LevelPassesE(em, l)
-                            /\ ~disc => (~HasLevelFilterE(em) \/ SomeLevelFilterPassesE(em, l))
+\* (The property demands soundness only; "not useless" is a fact about the as-built rule that the model checks in
+\* PreCheckSound, recorded executions are NOT required to satisfy it: a more conservative pre-check is legitimate.)
+PreCheckOKE(em, l, disc) == disc => ~LevelPassesE(em, l)
+PreCheckUsefulE(em, l, disc) == ~disc => (~HasLevelFilterE(em) \/ SomeLevelFilterPassesE(em, l))
 PreCheckOK(k, l, disc) == IF k = 0 THEN TRUE ELSE PreCheckOKE(EffMap(logs[k].f.hist), l, disc)
 
 \* Logging::getLog(mask): "found" | "null" | "exception"
@@ -208,7 +210,8 @@ FilterListOK == \A f \in AllF :
                   /\ \A i \in DOMAIN f.fl : f.fl[i].t = "cls" => (f.fl[i].cls # {} /\ f.fl[i].cls \subseteq 1..6)
 \* the pre-check as built (cached pointer) is sound and not useless in the sense of PreCheckOK
 PreCheckSound == \A k \in DOMAIN logs : LET em == EffMap(logs[k].f.hist)
-                                         IN \A l \in Levels : PreCheckOKE(em, l, ~AsBuiltProc(logs[k].f, l))
+                                         IN \A l \in Levels : /\ PreCheckOKE(em, l, ~AsBuiltProc(logs[k].f, l))
+                                                               /\ PreCheckUsefulE(em, l, ~AsBuiltProc(logs[k].f, l))
 \* class `undefined` never passes a class filter (it cannot be named)
 UndefinedClass == \A f \in AllF : HHas(f.hist, "cls") => LET em == EffMap(f.hist) IN \A l \in Levels : ~PassesE(em, l, 0)
 =============================================================================
